@@ -511,7 +511,7 @@ impl Scenario for C14 {
 
 fn scenarios(tier: &str) -> Vec<C14> {
     let mk = |name: &str, depth: usize, rd: u64, retries: Option<usize>, reconnect: bool| C14 {
-        inner: C03 { name: name.to_string(), alphabet: alphabet(rd, reconnect), depth, unsol: true, buf: 5, cto: false, retries },
+        inner: C03 { name: name.to_string(), alphabet: alphabet(rd, reconnect), depth, unsol: true, buf: 5, cto: false, retries, overflow_model: false },
         rd,
     };
     // every class on its own: enable / disable exactly class 1, 2 or 3, updates in all three
@@ -537,6 +537,7 @@ fn scenarios(tier: &str) -> Vec<C14> {
             buf: 5,
             cto: false,
             retries: Some(0),
+            overflow_model: false,
         },
         rd: 5000,
     };
